@@ -205,7 +205,17 @@ func (r *Report) Finish(c *Ctx, tier string, seed int64, wall float64, verifDir 
 	for _, k := range out.KnownHits {
 		kf = append(kf, k.Key+": "+k.What)
 	}
+	var all []string
+	for _, o := range r.Obls {
+		all = append(all, fmt.Sprintf("%s %s:%s @%s", o.Status, o.Rule, o.Construct, o.Pos))
+	}
+	if os.Getenv("VERIF_DUMP") != "" {
+		for _, o := range r.Obls {
+			fmt.Fprintf(os.Stderr, "%s %s:%s @%s | %s\n", o.Status, o.Rule, o.Construct, o.Pos, o.Detail)
+		}
+	}
 	cov := map[string]interface{}{
+		"all_obligations":     all,
 		"explanation":         r.Explanation,
 		"not_covered":         r.NotCovered,
 		"obligations":         out.Obligations,
